@@ -42,7 +42,9 @@ from vlib import MachineryError, main  # noqa: E402
 # ------------------------------------------------------------------------------------ rune alphabet
 VALID_MULTI = {"ee": "é", "EE": "É", "zh": "中", "fffd": "\ufffd",
                # case mapping changes the UTF-8 length: ı->I, ſ->S (2->1), ɐ<->Ɐ (2<->3), ⱥ<->Ⱥ (3<->2), K(Kelvin)->k (3->1)
-               "dli": "\u0131", "ls": "\u017f", "tua": "\u0250", "TUA": "\u2c6f", "ast": "\u2c65", "AST": "\u023a", "kel": "\u212a"}
+               "dli": "\u0131", "ls": "\u017f", "tua": "\u0250", "TUA": "\u2c6f", "ast": "\u2c65", "AST": "\u023a", "kel": "\u212a",
+               # three-cased letter (lower / TITLE / upper) and a combining mark
+               "dz": "\u01c6", "Dz": "\u01c5", "DZ": "\u01c4", "cm": "\u0301"}
 MULTI = {k: v.encode() for k, v in VALID_MULTI.items()}
 MULTI.update({"xff": b"\xff", "bs": b"\\", "tab": b"\t", "nl": b"\n"})
 B2TOK = sorted(((v, k) for k, v in MULTI.items()), key=lambda kv: -len(kv[0]))
@@ -181,13 +183,14 @@ RETKIND = {}  # documentation only: what each function returns is read off the %
 
 
 class Case:
-    __slots__ = ("i", "fn", "args", "expect", "oracle", "rot", "subj", "std", "real", "origin")
+    __slots__ = ("i", "fn", "args", "expect", "oracle", "rot", "subj", "std", "real", "origin", "sp")
 
     def __init__(self, i, fn, args, expect, oracle, rot, subj=0, origin="tlc"):
         self.i, self.fn, self.args, self.expect, self.oracle, self.rot, self.subj = i, fn, args, expect, oracle, rot, subj
         self.std = None
         self.real = {}       # route -> canonical value
         self.origin = origin
+        self.sp = {}         # route -> spelling of the arguments (lit | pipe | typed | var)
 
     def key(self):
         return json.dumps([self.fn, self.args], sort_keys=True)
@@ -217,8 +220,32 @@ class Case:
             return a["v"]
         raise MachineryError(f"unknown argument type {t}")
 
-    def expr(self, paths):
-        return "(" + " ".join([self.fn] + [self.arg_src(a, paths) for a in self.args]) + ")"
+    def typed_src(self, a, paths):
+        """The same VALUE as a typed template value instead of an untyped constant: a string that is the result of
+        another call, an int that is the result of len (type int, not an ideal constant)."""
+        if a["t"] == "s":
+            return "(printf \"%%s\" %s)" % go_lit(a["v"])
+        if a["t"] == "i" and 0 <= a["v"] <= 8:
+            return "(len \"%s\")" % ("x" * a["v"])
+        if a["t"] == "q" and a["v"] % 4 == 0:
+            return str(a["v"] // 4)                      # an integer constant where a float64 is expected
+        return self.arg_src(a, paths)
+
+    def expr(self, paths, sp="lit"):
+        return self.line(paths, sp)[1]
+
+    def line(self, paths, sp="lit"):
+        """(prefix actions, expression).  Spellings of one and the same abstract application:
+        lit  (fn a b s)      pipe  (s | fn a b)  -- the documented reason for 'subject last'
+        typed  arguments are typed values      var  the last argument comes from a template variable"""
+        srcs = [self.arg_src(a, paths) for a in self.args]
+        if sp == "typed":
+            srcs = [self.typed_src(a, paths) for a in self.args]
+        if sp == "pipe" and srcs:
+            return "", "(%s | %s)" % (srcs[-1], " ".join([self.fn] + srcs[:-1]))
+        if sp == "var" and srcs:
+            return "{{ $v%d := %s }}" % (self.i, srcs[-1]), "(" + " ".join([self.fn] + srcs[:-1] + ["$v%d" % self.i]) + ")"
+        return "", "(" + " ".join([self.fn] + srcs) + ")"
 
 
 def canon_expect(e):
@@ -231,6 +258,8 @@ def canon_expect(e):
         return ("b", bool(e["v"]))
     if t == "i":
         return ("n", int(e["v"]))
+    if t == "oneof":
+        return ("oneof", tuple(toks_to_bytes(x) for x in e["v"]))
     return (t,)
 
 
@@ -266,8 +295,8 @@ def show(v):
         return None
     if v[0] == "s":
         return {"t": "s", "go": go_lit(v[1])}
-    if v[0] == "l":
-        return {"t": "l", "go": [go_lit(x) for x in v[1]]}
+    if v[0] in ("l", "oneof"):
+        return {"t": v[0], "go": [go_lit(x) for x in v[1]]}
     if len(v) > 1:
         return {"t": v[0], "v": v[1] if not isinstance(v[1], bytes) else v[1].decode("utf8", "replace")}
     return {"t": v[0]}
@@ -372,7 +401,10 @@ class Runner:
         """Returns {case.i: canonical real value}.  An error is a value: ('err', msg)."""
         res = {}
         live = list(cases)
-        lines = ["%d\t{{ printf \"%%#v\" %s }}" % (c.i, c.expr(self.paths)) for c in live]
+        lines = []
+        for c in live:
+            pre, ex = c.line(self.paths, c.sp.get(route, "lit"))
+            lines.append("%s%d\t{{ printf \"%%#v\" %s }}" % (pre, c.i, ex))
         errs = 0
         per_fn = {}
         while True:
@@ -436,6 +468,101 @@ class Runner:
                     res.setdefault(c2.i, ("undecided",))
                 return res
 
+    def eval_history(self, steps):
+        """One history = one fresh process.  Every reply is bound to a variable, printed at once and printed
+        AGAIN after the last step.  Returns {(pos, 'now'|'end'): canonical value}."""
+        n = len(steps)
+        lines = ["{{ $r%d := %s }}N%d\t{{ printf \"%%#v\" $r%d }}" % (k, c.expr(self.paths), k, k) for k, c in enumerate(steps)]
+        lines += ["E%d\t{{ printf \"%%#v\" $r%d }}" % (k, k) for k in range(n)]
+        d = self._materialise("template", lines)
+        r = self._run(d / "cfg.yml")
+        out = d / "out" / "out.txt"
+        res = {}
+        if r.code == 0 and not r.panicked and out.exists():
+            for ln in out.read_bytes().split(b"\n"):
+                if b"\t" in ln:
+                    ident, raw = ln.split(b"\t", 1)
+                    res[(int(ident[1:]), "now" if ident[:1] == b"N" else "end")] = parse_gosyntax(raw)
+            if len(res) != 2 * n:
+                raise MachineryError("history probe output incomplete: " + out.read_text(errors="replace")[:300])
+            return res
+        if r.panicked or r.timed_out or r.code not in (0, 1):
+            res[(0, "now")] = ("crash", r.brief())
+            return res
+        m = self.LINE_RE.search(r.err + r.out)
+        if not m or not (1 <= int(m.group(1)) <= n):
+            raise MachineryError("history probe failed without an attributable template error: " + (r.err + r.out)[-600:])
+        res[(int(m.group(1)) - 1, "now")] = ("err", m.group(4)[:200])
+        return res
+
+    def eval_context(self, param, cases):
+        """The library inside one templated config parameter (dir, filename, pkgname, template-schema; structname is
+        route 'config').  Results travel hex-encoded inside the value and are read from the Resolved hook event."""
+        k = self._next()
+        d = self.world / f"b{k}"
+        d.mkdir()
+        body = "_".join("{{ printf \"%%x\" (printf \"%%#v\" %s) }}" % c.expr(self.paths) for c in cases)
+        conf = {"require-template-schema-exists": False, "formatter": "noop", "dir": str(d / "out"), "filename": "out.txt",
+                "pkgname": "out", "log-level": "error", "template": "file://" + str(self.cfgroute_tmpl),
+                "packages": {f"{self.mod}/src": {"config": {"all": True}}}}
+        conf[param] = {"dir": str(d / "out") + "/x", "filename": "x", "pkgname": "x", "template-schema": "x"}[param] + body + "_"
+        (d / "cfg.yml").write_text(json.dumps(conf))
+        tf = d / "hook.ndjson"
+        with self.lock:
+            self.runs += 1
+        env = dict(self.env, VERIFHOOK_TRACE=str(tf))
+        p = subprocess.run([self.bin, "--config", str(d / "cfg.yml")], cwd=self.world, env=env, capture_output=True, timeout=120)
+        err = p.stderr.decode("utf8", "replace") + p.stdout.decode("utf8", "replace")
+        if vlib.PANIC_RE.search(err) or p.returncode not in (0, 1):
+            if len(cases) == 1:
+                return {cases[0].i: ("crash", {"exit": p.returncode, "stderr_tail": err[-400:]})}
+        val = None
+        if tf.exists():
+            for ln in tf.read_text().splitlines():
+                try:
+                    e = json.loads(ln)
+                except ValueError:
+                    continue
+                if e.get("ev") == "Resolved":
+                    val = e.get({"template-schema": "schema"}.get(param, param))
+        if p.returncode == 0 and val is not None:
+            parts = val.split("x", 1)[1].split("_")[:-1] if param != "dir" else val.rsplit("/x", 1)[1].split("_")[:-1]
+            if len(parts) != len(cases):
+                raise MachineryError(f"context {param}: resolved value does not carry {len(cases)} results: {val[:200]}")
+            return {c.i: parse_gosyntax(bytes.fromhex(h)) for c, h in zip(cases, parts)}
+        if len(cases) > 1:
+            res = {}
+            for c in cases:
+                res.update(self.eval_context(param, [c]))
+            return res
+        if "template" in err:
+            return {cases[0].i: ("err", err[-300:])}
+        raise MachineryError(f"context {param}: run failed without a template error: {err[-500:]}")
+
+    def available_in_config(self, fns):
+        """The same map must be registered for every templated config parameter."""
+        missing = []
+        params = ["dir", "filename", "pkgname", "structname", "template-schema"]
+        fns = sorted(fns)
+        while True:
+            k = self._next()
+            d = self.world / f"b{k}"
+            d.mkdir()
+            conf = {"require-template-schema-exists": False, "formatter": "noop", "log-level": "error",
+                    "template": "file://" + str(self.cfgroute_tmpl), "packages": {f"{self.mod}/src": {"config": {"all": True}}}}
+            base = {"dir": str(d / "out"), "filename": "out.txt", "pkgname": "out", "structname": "S", "template-schema": "x"}
+            for prm in params:
+                conf[prm] = base[prm] + "".join("{{ if false }}{{ %s }}{{ end }}" % f for f in fns if (prm, f) not in missing)
+            (d / "cfg.yml").write_text(json.dumps(conf))
+            r = self._run(d / "cfg.yml")
+            if r.code == 0:
+                return missing
+            text = r.err + r.out
+            m = re.search(r'failed to parse ([\w-]+) template: .*?function \\?"(\w+)\\?" not defined', text)
+            if r.panicked or not m or (m.group(1), m.group(2)) in missing or m.group(2) not in fns:
+                raise MachineryError("config availability probe failed: " + text[-600:])
+            missing.append((m.group(1), m.group(2)))
+
     def eval_all(self, route, cases, batch, workers=8):
         batches = [cases[i:i + batch] for i in range(0, len(cases), batch)]
         res = {}
@@ -467,7 +594,7 @@ INITIALISMS = ["ACL", "API", "ASCII", "CPU", "CSS", "DNS", "EOF", "GUID", "HTML"
                "LHS", "QPS", "RAM", "RHS", "RPC", "SLA", "SMTP", "SQL", "SSH", "TCP", "TLS", "TTL", "UDP", "UI", "UID",
                "UUID", "URI", "URL", "UTF8", "VM", "XML", "XMPP", "XSRF", "XSS"]
 WIDE = list("abdilrstuxzABDILRSTUXZ") + ["ee", "EE", "zh", "1", "8", "_", " ", "/", ".", "-", "xff", "tab",
-                                          "dli", "ls", "tua", "TUA", "ast", "AST", "kel"]
+                                          "dli", "ls", "tua", "TUA", "ast", "AST", "kel", "dz", "Dz", "DZ", "cm"]
 
 
 def S(toks):
@@ -629,6 +756,27 @@ def validate_private(ctx, events, timeout=900):
     return r.ok, r
 
 
+def tlc_private(ctx, module, cfg, timeout=300):
+    """A model-checking run outside ctx.tlc's counters (for the two small negated-witness runs, which then run
+    next to the main enumeration instead of queueing behind it).  Its states are not added to the evidence."""
+    import shutil
+    with _TLC_LOCK:
+        _TLC_N[0] += 1
+        d = ctx.scratch / f"c16-mc-{_TLC_N[0]}"
+    d.mkdir()
+    for f in vlib.SPEC.glob("FuncLib*.tla"):
+        shutil.copy(f, d / f.name)
+    shutil.copy(vlib.SPEC / "cfg" / cfg, d / cfg)
+    cmd = ["tlc", "-workers", "1", "-metadir", str(d / "meta"), "-config", cfg, "-deadlock", module + ".tla"]
+    t = time.time()
+    try:
+        p = subprocess.run(cmd, cwd=d, capture_output=True, text=True, timeout=timeout, errors="replace")
+    except subprocess.TimeoutExpired:
+        subprocess.run(["pkill", "-f", str(d / "meta")], capture_output=True)
+        raise MachineryError(f"TLC timed out after {timeout}s on {module}/{cfg}")
+    return vlib.TLCResult(module, cfg, p.returncode, p.stdout + p.stderr, time.time() - t, d)
+
+
 class TLCQueue:
     """All TLC runs go through one thread (ctx.tlc numbers its scratch dirs without a lock)."""
 
@@ -658,6 +806,8 @@ def judge(c, got):
         return None if got[0] == "err" else ("value-where-error", want)
     if got[0] == "err":
         return ("error-where-value", want)
+    if want[0] == "oneof":
+        return None if got[0] == "s" and got[1] in want[1] else ("wrong-value", want)
     if not same(got, want):
         return ("wrong-value", want)
     return None
@@ -712,8 +862,11 @@ def run(ctx):
     # ---------------------------------------------------------------- 1. TLC: enumerate, Impl => Contract, export
     cfg = "FuncLib_thorough.cfg" if thorough else "FuncLib_quick.cfg"
     f_main = tq.submit(ctx.tlc, "FuncLibMC", cfg, workers=1, timeout=1500, coverage=False)
-    f_wit = tq.submit(ctx.tlc, "FuncLibMC", "FuncLib_witness.cfg", workers=1, timeout=300, count=False)
-    f_wit2 = tq.submit(ctx.tlc, "FuncLibMC", "FuncLib_witness2.cfg", workers=1, timeout=300, count=False)
+    f_hist = tq.submit(ctx.tlc, "FuncLibHist", "FuncLibHist_thorough.cfg" if thorough else "FuncLibHist_quick.cfg",
+                       workers=1, timeout=600)
+    wpool = cf.ThreadPoolExecutor(max_workers=2)
+    f_wit = wpool.submit(tlc_private, ctx, "FuncLibMC", "FuncLib_witness.cfg")
+    f_wit2 = wpool.submit(tlc_private, ctx, "FuncLibMC", "FuncLib_witness2.cfg")
 
     # builds meanwhile (main thread)
     drv = ctx.build_driver("funclib")
@@ -730,6 +883,24 @@ def run(ctx):
     if not r.ok:
         raise MachineryError("TLC failed on FuncLib:\n" + r.tail())
     cases = load_cases(r)
+    rh = f_hist.result()
+    if rh.violated:
+        raise MachineryError(f"model-level: {rh.violated} violated on FuncLibHist:\n" + rh.tail())
+    if not rh.ok:
+        raise MachineryError("TLC failed on FuncLibHist:\n" + rh.tail())
+    hists = []
+    hid = 10_000_000
+    for rec in rh.prints("HIST"):
+        steps = []
+        for st in rec["steps"]:
+            steps.append(Case(hid, st["fn"], st["args"], st["expect"], st["oracle"], st["rot"], origin="hist"))
+            hid += 1
+        hists.append(steps)
+    if len(hists) < 1000 or not any(len(h) == 3 for h in hists) == thorough:
+        raise MachineryError(f"history model exported {len(hists)} histories (interleaved ones: {any(len(h) == 3 for h in hists)})")
+    if not any(h[0].fn == "matchString" and h[0].args[0]["v"] == [] for h in hists) or \
+            not any(h[0].key() == h[1].key() for h in hists) or not any(h[0].args != h[1].args and h[0].args[:1] == h[1].args[:1] and len(h[0].args) == 2 for h in hists):
+        raise MachineryError("vacuous: histories lack a first-call-with-empty-pattern / repeated / same-first-argument pair")
     w = f_wit.result()
     if w.violated != "ImplMatchesContract":
         raise MachineryError("negated witness: the pre-d879be0 code shape (ExportedImpl = \"byte\") was NOT rejected by "
@@ -791,7 +962,7 @@ def run(ctx):
 
     # ---------------------------------------------------------------- 2. the stdlib oracle; spec-vs-stdlib is exit 2
     dbg(ctx, "guards done")
-    n_std = run_namesakes(ctx, drv, cases, runner.env)
+    n_std = run_namesakes(ctx, drv, cases + [c for h in hists for c in h], runner.env)
     spec_bugs = [c for c in cases if c.oracle == "spec+std" and not same(canon_expect(c.expect), c.std)]
     if spec_bugs:
         c = spec_bugs[0]
@@ -813,6 +984,11 @@ def run(ctx):
     if set(missing) != documented - set(keys) and keys:
         ctx.note(f"availability probe {missing} vs FuncMap keys {sorted(documented - set(keys))}")
     live_cases = [c for c in cases if c.fn not in missing]
+    # the same map in every context where the library is offered: each templated config parameter
+    missing_cfg = runner.available_in_config(documented - set(missing))
+    for prm, f in missing_cfg:
+        ctx.violation({"kind": "missing-function", "fn": f, "route": "config:" + prm},
+                      {"what": f"documented template function {f!r} is not defined inside the templated config parameter {prm!r}"})
 
     # ---------------------------------------------------------------- 4. replay through the binary
     dbg(ctx, "availability done")
@@ -827,6 +1003,11 @@ def run(ctx):
     totals = [c for c in totality_cases(nxt, runner) if c.fn not in missing]
     ctx.rng.shuffle(safe)      # batches mix functions; order is seed-dependent, verdict is not
     bsz = 1000 if thorough else 400
+    # spelling dimension: the same abstract application written as call, pipeline, with typed values, via a variable
+    for c in safe + extras:
+        if c.args:
+            c.sp["template"] = ctx.rng.choices(("lit", "pipe", "typed", "var"), (55, 15, 15, 15))[0]
+            c.sp["config"] = ctx.rng.choices(("lit", "pipe", "typed", "var"), (40, 20, 20, 20))[0]
     t0 = time.time()
     realA = runner.eval_all("template", safe + extras, bsz)
     if not thorough and len(risk) > 160:   # quick: seeded sample of the one-run-per-application cases
@@ -847,6 +1028,52 @@ def run(ctx):
     realB = runner.eval_all("config", candB, bsz)
     riskB = [c for c in risk_run if cfg_ok(c)][:: (1 if thorough else 4)]
     realB.update(runner.eval_all("config", riskB, 1))
+    # histories: one fresh process each
+    # histories.  A fresh process per FIRST application (its histories follow one another in that process:
+    # a,b1,a,b2,...: each enumerated history is a contiguous sub-history, only the first call is truly the
+    # first of the process); quick draws the first applications that get their own process, the histories of
+    # the others share a few processes (adjacency kept).  Pure is history-independent, so longer histories
+    # than TLC enumerated are judged by the same expected values.
+    live_h = [h for h in hists if not any(c.fn in missing for c in h)]
+    by_first = {}
+    for h in live_h:
+        by_first.setdefault(h[0].key(), []).append(h)
+    firsts = sorted(by_first)
+    ctx.rng.shuffle(firsts)
+    n_fresh = len(firsts)      # every pool application is the first call of some process (quick too: ~300 short runs)
+    groups = [[c for h in by_first[k] for c in h] for k in firsts[:n_fresh]]
+    rest = [h for k in firsts[n_fresh:] for h in by_first[k]]
+    groups += [[c for h in rest[k:k + 60] for c in h] for k in range(0, len(rest), 60)]
+
+    def run_group(steps):
+        out = {}
+        todo = list(steps)
+        while todo:
+            res = runner.eval_history(todo)
+            bad = [k for (k, w), v in res.items() if v[0] in ("err", "crash")]
+            for (k, w), v in res.items():
+                out[(todo[k].i, w)] = v
+            if not bad:
+                break
+            todo = todo[bad[0] + 1:]          # what followed the failing step gets a process of its own
+        return out
+    hres = {}
+    with cf.ThreadPoolExecutor(max_workers=8) as ex:
+        for part in ex.map(run_group, groups):
+            hres.update(part)
+    # contexts: a sample inside each of the other templated config parameters
+    small = [c for c in safe if cfg_ok(c) and sum(len(a["v"]) if a["t"] in ("s", "l") else 1 for a in c.args) <= 3
+             and c.expect["t"] in ("s", "b", "i")]
+    ctx_real = {}
+    n_ctx = 120 if thorough else 24
+    jobs = []
+    for prm in ("dir", "filename", "pkgname", "template-schema"):
+        pick = ctx.rng.sample(small, min(n_ctx, len(small)))
+        jobs += [(prm, pick[k:k + 4]) for k in range(0, len(pick), 4)]
+    with cf.ThreadPoolExecutor(max_workers=8) as ex:
+        for (prm, part), got in zip(jobs, ex.map(lambda j: runner.eval_context(*j), jobs)):
+            for c in part:
+                ctx_real[(prm, c.i)] = (c, got[c.i])
     t_replay = time.time() - t0
 
     dbg(ctx, "replay done")
@@ -882,6 +1109,27 @@ def run(ctx):
             v = judge(c, got)
             if v:
                 violate(c, route, v[0], got, v[1])
+    for (prm, _), (c, got) in ctx_real.items():
+        n_eval += 1
+        v = judge(c, got)
+        if v:
+            violate(c, "config:" + prm, v[0], got, v[1])
+    n_hist_steps = 0
+    for steps in live_h:
+        hist_txt = [c.expr(None) for c in steps]
+        for k, c in enumerate(steps):
+            now, end = hres.get((c.i, "now")), hres.get((c.i, "end"))
+            if now is None:
+                continue
+            n_hist_steps += 1
+            n_eval += 1
+            c.real["template"] = now
+            v = judge(c, now)
+            more = {"history_in_one_process": hist_txt, "position": k}
+            if v:
+                violate(c, "template", v[0], now, v[1], dict(more, history=True))
+            elif end is not None and not same(end, now):
+                violate(c, "template", "reply-changed-after-later-call", end, now, more)
     if undecided:
         ctx.note(f"{undecided} application(s) left undecided after {40} errors in one batch")
         if not ctx.violations and not ctx.known_hits:
@@ -892,7 +1140,8 @@ def run(ctx):
     dbg(ctx, "compare done")
     own = [c for c in live_cases if c.oracle in ("spec", "spec+std") and c.fn != "readFile"]
     ctx.rng.shuffle(own)
-    logged = [c for c in live_cases if c.oracle == "shape"] + extras + own[: (6000 if thorough else 600)]
+    logged = [c for c in live_cases if c.oracle == "shape"] + extras + own[: (6000 if thorough else 600)] \
+        + [c for h in live_h for c in h if c.oracle == "shape" and "template" in c.real]
     events, ev_case = [], []
     for c in logged:
         for route in ("template", "config"):
@@ -987,6 +1236,10 @@ def run(ctx):
         "stdlib_namesakes_computed": n_std, "tla_vs_stdlib_disagreements": 0,
         "evaluated_template_route": len(realA), "evaluated_config_route": len(realB),
         "one_per_run_applications": len(risk_run) + len(totals), "one_per_run_skipped_in_quick": len(risk) - len(risk_run),
+        "histories_exported_by_tlc": len(live_h), "history_processes": len(groups), "first_applications_with_own_process": min(n_fresh, len(firsts)), "history_steps_judged": n_hist_steps,
+        "config_parameter_contexts": {"availability": "44 functions x dir/filename/pkgname/structname/template-schema",
+                                      "evaluations_per_other_parameter": n_ctx},
+        "spellings": "call / pipeline / typed values / template variable, drawn per application and route",
         "error_values_observed": n_err_values, "non_enumerated_inputs_judged_by_trace_spec": len(extras),
         "totality_only_adversarial_inputs": len(totals), "trace_events": len(events), "trace_rejections": trace_rejects,
         "trace_selftest": f"corrupted reply at event {at} rejected there", "mockery_runs": runner.runs, "reruns_after_error_value": runner.reruns,
